@@ -8,7 +8,8 @@
 //     ptk <addr> <addr> <ptkhex> <0|1>       WPA2Decrypter::add_decryption_keys(SessionKeys(ptk, is_ccmp))
 //     apdata <pskhex> <ssidhex> [...]        WPA2Decrypter::add_ap_data(psk, ssid)
 //     apaddr <pskhex> <ssidhex> <addr> [...] WPA2Decrypter::add_ap_data(psk, ssid, addr)
-//     wpa <framehex> [@ ...]                 Dot11::from_bytes + WPA2Decrypter::decrypt (+ a stand-alone capturer)
+//     wpa <framehex> [@ ...]                 Dot11::from_bytes + WPA2Decrypter::decrypt (+ a stand-alone capturer);
+//                                            lk= lists the key-table entries announced by handshake callbacks
 //   c09_crypto gen        reference encryptor mode (independent of libtins, see c09_ref.h):
 //     wepenc <keyhex> <iv3hex> <keyid> <pthex>                               -> protected body
 //     tkipenc <tk16> <mickey8> <ta> <da> <sa> <prio> <tsc> <keyid> <pthex>   -> protected body
@@ -60,9 +61,11 @@ struct State {
     Crypto::WPA2Decrypter wpa;
     RSNHandshakeCapturer cap;
     std::vector<std::string> events;
+    std::vector<std::pair<addr_t, addr_t> > learned;     // (bssid, client) of the handshake callbacks since the last line
     State() {
         wpa.handshake_captured_callback([this](const std::string& ssid, const addr_t& bssid, const addr_t& client) {
             events.push_back("hs:" + to_hex((const uint8_t*)ssid.data(), ssid.size()) + ":" + addr_hex(bssid) + ":" + addr_hex(client));
+            learned.push_back(std::make_pair(bssid, client));
         });
         wpa.ap_found_callback([this](const std::string& ssid, const addr_t& bssid) {
             events.push_back("ap:" + to_hex((const uint8_t*)ssid.data(), ssid.size()) + ":" + addr_hex(bssid));
@@ -80,6 +83,20 @@ static std::string show_keys(const Crypto::WPA2Decrypter& w) {
           << to_hex(kv.second.get_ptk());
     }
     return first ? "-" : o.str();
+}
+
+// the key-table entries the handshake callbacks of this line announced: "<lo><hi>:<ccmp>:<ptk>" (the map key is sorted)
+static std::string show_learned(State& st) {
+    std::string s;
+    for (auto& p : st.learned) {
+        addr_t lo = p.first < p.second ? p.first : p.second, hi = p.first < p.second ? p.second : p.first;
+        auto it = st.wpa.get_keys().find(std::make_pair(lo, hi));
+        if (!s.empty()) s += ",";
+        if (it == st.wpa.get_keys().end()) s += addr_hex(lo) + addr_hex(hi) + ":none";
+        else s += addr_hex(lo) + addr_hex(hi) + ":" + (it->second.uses_ccmp() ? "1" : "0") + ":" + to_hex(it->second.get_ptk());
+    }
+    st.learned.clear();
+    return s.empty() ? "-" : s;
 }
 
 static std::string show_events(State& st) {
@@ -211,7 +228,7 @@ int main(int argc, char** argv) {
             o << "r=" << r;
             if (!d) o << " nodata";
             else o << " prot=" << int(d->wep()) << " inner=" << show_inner(d->inner_pdu());
-            if (w[0] == "wpa") o << hs << " ev=" << show_events(*st) << " nk=" << st->wpa.get_keys().size();
+            if (w[0] == "wpa") o << hs << " ev=" << show_events(*st) << " nk=" << st->wpa.get_keys().size() << " lk=" << show_learned(*st);
             return o.str();
         }
         if (w[0] == "keys") return "keys=" + show_keys(st->wpa);
